@@ -287,7 +287,7 @@ def process(ctx, case, feats, seen):
 def shard(ctx):
     rec = ctx.rec
     monitors.install_contracts()
-    n = ctx.scale(5000, 200000)
+    n = ctx.scale(50000, 200000)
     seen = {}
     i = 0
     while i < n and not rec.expired():
